@@ -212,6 +212,9 @@ fn run_dir(c: &DirCase, sink: &mut Sink) -> (Verdict, Option<u64>, Value) {
             Err(_) => return (Verdict::DontCare("inexpressible header".into()), None, desc),
         }
     }
+    let by = crate::util::add_bystanders(&mut hdrs, crate::util::hash64(&(&c.path, &c.accept_encoding, c.auto_gzip)));
+    let mut desc = desc;
+    desc["other_request_headers"] = json!(by);
     let d = if c.auto_gzip { dirs().0.clone() } else { dirs().1.clone() };
     let h2 = hdrs.clone();
     let p2 = path.clone();
